@@ -257,6 +257,20 @@ class SimPool(cf.Executor):
                                info=("pool-shutdown", self.token))
 
 
+def _note_starved(rt: Any, tok: Any) -> None:
+    """Ground truth for C08: a submitted node that cannot start because every worker of its pool is busy, at the moment the
+    scheduler parks.  Never happens when the pool has as many workers as the scheduler may have nodes in flight."""
+    if tok is None:
+        return
+    for q in rt.pools_by_tok.get(tok, []):
+        if q.closed or q.max_workers - q.running > 0:
+            continue
+        nids = sorted(it["nid"] or "" for it in q.items
+                      if not it["started"] and not it["f"].cancelled() and it.get("tok", tok) == tok)
+        if nids:
+            rt.sim.ev("pool_starved", tok, nids, q.max_workers, q.running)
+
+
 def sim_wait(fs: Any, timeout: Optional[float] = None, return_when: str = cf.ALL_COMPLETED) -> Any:
     if not _sim_active():
         return _real_wait(fs, timeout, return_when)
@@ -272,6 +286,8 @@ def sim_wait(fs: Any, timeout: Optional[float] = None, return_when: str = cf.ALL
         pred = lambda: all(f.done() for f in fs)  # noqa: E731
     blocked = bool(fs) and not pred()
     nids = sorted((getattr(f, "nid", None) or "") for f in fs)
+    if blocked:
+        _note_starved(rt, tok)
     i = sim.ev("wait", tok, "conc", nids, return_when, blocked)
     if tok is not None:
         rt.open_waits[tok] = {"kind": "conc", "fs": fs, "rw": return_when, "ev": i,
@@ -301,6 +317,8 @@ async def sim_aio_wait(fs: Any, *, timeout: Optional[float] = None, return_when:
         blocked = not any(f.done() for f in fs)
     else:
         blocked = not all(f.done() for f in fs)
+    if blocked:
+        _note_starved(rt, tok)
     i = sim.ev("wait", tok, "async", nids, return_when, blocked)
     rt.open_waits[tok] = {"kind": "async", "fs": fs, "rw": return_when, "ev": i,
                           "part": sim.me(), "done0": {id(f) for f in fs if f.done()}}
